@@ -838,6 +838,13 @@ class UnionConverter(JsonConverter[T, np.object_]):
         else:
             assert isinstance(json_object, dict)
             tag, inner_json_object = next(iter(json_object.items()))
+            if (
+                inner_json_object is None
+                and self._cases[0] is None
+                and tag not in self.tag_to_case_index
+            ):
+                # other writers (e.g. C++) write the null case as {"<tag>": null}
+                return None  # type: ignore
             case = self._cases[self.tag_to_case_index[tag]]
             return case[0](case[1].from_json(inner_json_object))  # type: ignore
 
